@@ -22,7 +22,8 @@ SPEC = {
                 relevant=("frame_", "resubmit", "point_column", "channel_column", "declare_"),
                 need={"c06_frame_checked": 2000, "c06_column_checked": 200},
                 rule="distinct sequences containing >= 1 accepted frame or column call whose before/after snapshots were related"),
-    "C07": dict(workloads=[("c07", False, 1.0, [])], quick=640, thorough=60000, maxops=(40, 60),
+    "C07": dict(workloads=[("c07", False, 0.85, []), ("c07", False, 0.15, ["--start", "@CORPUS@", "--maxops", "14"])],   # loaded objects: labels fewer/more than the points in use
+                quick=640, thorough=60000, maxops=(40, 60),
                 relevant=("frame_", "resubmit", "point_column", "channel_column", "declare_"),
                 need={"c07_frame_defective": 400, "c07_frame_valid": 1000, "c07_column_calls": 800},
                 rule="distinct sequences containing >= 1 frame/column call judged against the documented precondition predicate"),
